@@ -18,6 +18,8 @@ Static rules (DESIGN.md §C09):
  reinit-reset     reset()/build() of the numint mixin clear every generator kept across calls, and the Kohn-Sham
                   wrapper reaches those hooks on every path (the reuse tests are identity tests on objects that
                   PySCF modifies in place)
+ cache-mutate     an intermediate that one method saves on the object for a later one (self._cache[spin],
+                  self._cached_ao_data, ...) is not updated in place by a reader, through any alias or view
  cache-alias      a value stored into keyed per-object state that outlives the call (self._cache[spin] = ...,
                   self._cached_p_i_qg[s].append(p), also through helper methods and returned values) does not
                   may-alias an instance-attribute buffer that later calls rewrite in place (one array per object,
@@ -388,7 +390,8 @@ def rule_hidden_write(chk):
         what = ("parameter %r of %s is not an output buffer by the repository's conventions (no `=None` default, "
                 "not one of the buffer names) but its storage is written by `%s`%s" % (
                     o.param, o.func.qual, o.text[:100], (" (" + o.detail + ")") if o.detail else ""))
-        if o.augname and o.param not in o.func.array_evidence:
+        tname = o.stmt.target.id if (isinstance(o.stmt, ast.AugAssign) and isinstance(o.stmt.target, ast.Name)) else None
+        if o.augname and o.param not in o.func.array_evidence and tname not in o.func.array_evidence:
             chk.note("hidden-write", where, "augmented assignment to the bare parameter %r (in place only if it is an "
                      "array; no evidence that it is): %s" % (o.param, o.text[:80]))
             continue
@@ -421,6 +424,7 @@ def rule_hidden_write(chk):
                 rid = "kernel-input-write" if f.rel.startswith("ciderpress/models/") else "hidden-write"
                 chk.ok(rid, "%s:%s(%s) not written" % (f.rel, f.qual, p), nontrivial=p in f.array_evidence)
     rule_cache_alias(chk, P)
+    rule_cache_mutate(chk, P)
     return P
 
 
@@ -444,8 +448,9 @@ def _scratch_writes(P, classes, attr):
             continue
         for r, texts in g.state.items():
             parts, key = effects.state_parts(r)
-            if parts == (attr,) and (key is None or key.startswith("const:")):
-                out.append((g, sorted(texts)[0]))
+            strong = sorted(t for t in texts if not t.startswith("weak: "))
+            if parts == (attr,) and (key is None or key.startswith("const:")) and strong:
+                out.append((g, strong[0]))
     return out
 
 
@@ -503,7 +508,8 @@ def rule_cache_alias(chk, P):
             continue
         for r, texts in g.state.items():
             parts, key = effects.state_parts(r)
-            if len(parts) == 1 and (key is None or key.startswith("const:")) and any("->" not in t for t in texts):
+            if len(parts) == 1 and (key is None or key.startswith("const:")) and any(
+                    "->" not in t and not t.startswith("weak: ") for t in texts):
                 scratch.setdefault((g.rel, g.cls.name, parts[0]), g)
     for (rel, cname, attr), g in sorted(scratch.items()):
         chk.ok("cache-alias", "%s:%s.%s is a per-object buffer rewritten in place (%s); no keyed state aliases it" % (
@@ -1247,6 +1253,20 @@ def _is_ceil_div(P, e, Npoly, Dpoly, depth=0):
     return False
 
 
+def _strip_max1(P, e):
+    """`max(K, 1)` / `max(1, K)` -> K: the two differ only for K = 0, i.e. when there is nothing to cover"""
+    e = P.resolve(e)
+    while isinstance(e, ast.Call) and pf.call_name(e) == "max" and len(e.args) == 2:
+        a, b = e.args
+        if _const_of(P.poly(a)) == 1:
+            e = P.resolve(b)
+        elif _const_of(P.poly(b)) == 1:
+            e = P.resolve(a)
+        else:
+            break
+    return e
+
+
 def _strip_zero_guard(P, e):
     """`K if <cond> else 0` -> K (nothing to cover in the else case)"""
     e = P.resolve(e)
@@ -1440,7 +1460,7 @@ def rule_chunk_loop(chk):
             Kp = P.poly(K)
             if _is_ceil_div(P, K, Npoly, D):
                 verdict_ok = True
-            elif Kdiv is not None and P.poly(Kdiv) == Kp:
+            elif Kdiv is not None and (P.poly(Kdiv) == Kp or P.poly(_strip_max1(P, Kdiv)) == P.poly(_strip_max1(P, K))):
                 if extended_last:
                     verdict_ok = True
                 elif _const_of(Kp) == 1:
@@ -1458,7 +1478,7 @@ def rule_chunk_loop(chk):
             else:
                 over = _const_of(_padd(bound, Npoly, -1))
                 quo = None
-                if Kdiv is not None and bound == _pmul(P.poly(Kdiv), D):
+                if Kdiv is not None and bound in (_pmul(P.poly(Kdiv), D), _pmul(P.poly(_strip_max1(P, Kdiv)), D)):
                     quo = Kdiv
                 if quo is not None and not extended_last and _const_of(P.poly(quo)) != 1:
                     problems.append("the loop runs to K * (N // K) (K = %s): K * (N // K) <= N with equality only when "
@@ -1522,6 +1542,101 @@ def _is_ceil_times(P, bound, Npoly, D):
             if node is not None and _is_ceil_div(P, node, Npoly, D) and bound == _pmul({(atom,): 1}, D):
                 return True
     return False
+
+
+# ----------------------------------------------------------------------------
+# rule cache-mutate: an intermediate saved by one method for a later one is not updated in place by its reader
+# ----------------------------------------------------------------------------
+ALLOC_ONLY = {"empty", "zeros", "ones", "ndarray", "empty_like", "zeros_like", "ones_like", "_empty_aligned"}
+
+
+def _cache_binders(P, cls, attr):
+    """methods (other than __init__) that bind self.attr / a slot of it to a *computed* value (not None, not an
+    empty literal, not a bare allocation: those are scratch buffers, which everybody may refill)"""
+    out = []
+    for c in _related_classes(P, cls):
+        for f in P.class_funcs.get(id(c), {}).values():
+            if f.node.name == "__init__":
+                continue
+            for n in pf.walk_no_nested(f.node):
+                vals = []
+                if isinstance(n, ast.Assign):
+                    for t in n.targets:
+                        for x in (t.elts if isinstance(t, ast.Tuple) else [t]):
+                            b = x
+                            while isinstance(b, ast.Subscript):
+                                b = b.value
+                            if pf.is_self_attr(b, attr):
+                                vals.append(n.value)
+                elif isinstance(n, ast.Call) and isinstance(n.func, ast.Attribute) and n.func.attr in ("append", "extend"):
+                    b = n.func.value
+                    while isinstance(b, ast.Subscript):
+                        b = b.value
+                    if pf.is_self_attr(b, attr):
+                        vals += list(n.args)
+                for v in vals:
+                    if isinstance(v, ast.Constant) and v.value is None:
+                        continue
+                    if isinstance(v, (ast.List, ast.Dict, ast.Tuple)) and not (v.keys if isinstance(v, ast.Dict) else v.elts):
+                        continue
+                    if isinstance(v, ast.Call) and (pf.call_name(v) or "").split(".")[-1] in ALLOC_ONLY:
+                        continue
+                    if isinstance(v, ast.Name) and any(
+                            isinstance(m, ast.Assign) and any(isinstance(t, ast.Name) and t.id == v.id for t in m.targets)
+                            and isinstance(m.value, ast.Call) and (pf.call_name(m.value) or "").split(".")[-1] in ALLOC_ONLY
+                            for m in pf.walk_no_nested(f.node)):
+                        continue  # `buf = np.empty(..); ...; self._buf = buf`: a scratch buffer kept for reuse
+                    if f not in out:
+                        out.append(f)
+    return out
+
+
+def rule_cache_mutate(chk, P):
+    n_caches = 0
+    seen_attr = {}
+    for f in sorted(P.funcs.values(), key=lambda x: x.key):
+        if f.cls is None:
+            continue
+        # attributes this method reads back
+        for r, texts in sorted(f.state.items()):
+            parts, key = effects.state_parts(r)
+            own = sorted(t for t in texts if "->" not in t and not t.startswith("weak: "))
+            if len(parts) != 1 or not own:
+                continue
+            attr = parts[0]
+            bs = seen_attr.setdefault((id(f.cls), attr), _cache_binders(P, f.cls, attr))
+            if not bs:
+                continue  # a scratch buffer / plain state, not something saved for a later call
+            inst = "%s:%s updates the saved intermediate self.%s in place" % (f.rel, f.qual, attr)
+            if f in bs:
+                chk.ok("cache-mutate", "%s:%s fills self.%s which it saves itself" % (f.rel, f.qual, attr), nontrivial=False)
+                continue
+            chk.violation("cache-mutate", f.rel, f.qual, "self.%s: %s" % (attr, own[0][:80]), f.node.lineno,
+                          "`%s` writes in place into storage read back from self.%s, an intermediate that %s saved for "
+                          "later calls (through a plain alias / view of it): the saved value is no longer what was "
+                          "computed, so a second %s on the same saved data gives a different result" % (
+                              own[0][:90], attr, ", ".join(sorted(b.qual for b in bs)), f.node.name), instance=inst)
+    # obligations: every (saved intermediate, reader) pair that is not written
+    for m2, c in P.prog.all_classes():
+        attrs = set()
+        for fn in P.class_funcs.get(id(c), {}).values():
+            for n in pf.walk_no_nested(fn.node):
+                if pf.is_self_attr(n) and isinstance(n.ctx, ast.Load):
+                    attrs.add(n.attr)
+        for attr in sorted(attrs):
+            bs = seen_attr.setdefault((id(c), attr), _cache_binders(P, c, attr))
+            if not bs:
+                continue
+            n_caches += 1
+            for fn in P.class_funcs.get(id(c), {}).values():
+                if fn in bs or fn.node.name == "__init__":
+                    continue
+                reads = any(pf.is_self_attr(n, attr) and isinstance(n.ctx, ast.Load) for n in pf.walk_no_nested(fn.node))
+                written = any(effects.state_parts(r)[0] == (attr,) and any(
+                    "->" not in t and not t.startswith("weak: ") for t in texts) for r, texts in fn.state.items())
+                if reads and not written:
+                    chk.ok("cache-mutate", "%s:%s reads the saved self.%s without writing into it" % (fn.rel, fn.qual, attr))
+    chk.count("attributes holding intermediates saved by one method for another", n_caches)
 
 
 # ----------------------------------------------------------------------------
@@ -1623,6 +1738,7 @@ def _analyse_rules(chk):
     chk.rule("ctor-roundtrip", "NLDFAuxiliaryPlan.new feeds back raw constructor arguments")
     chk.rule("chunk-loop", "KernelEvaluator chunk loop covers [0,N) and accumulates")
     chk.rule("reinit-reset", "reset()/build() clear the kept generators and are reached from the KS wrapper on every path")
+    chk.rule("cache-mutate", "intermediates saved by one method for a later one are not updated in place by their readers")
     chk.rule("cache-alias", "values stored into keyed per-object state do not alias a reusable instance buffer")
     chk.rule("kernel-input-write", "hidden-write restricted to ciderpress/models (kernel inputs X, Y are not mutated)")
     chk.rule("memo-invalidate", "methods that change the inputs of a memoised attribute reset the memo")
@@ -1639,6 +1755,7 @@ def _analyse_rules(chk):
     chk.floor("cache-typestate", 8, "11 consume sites + spin forwarding in the generator")
     chk.floor("hidden-write", 350, "non-buffer parameters of the dft/pyscf API entry points incl. constructors")
     chk.floor("kernel-input-write", 100, "non-buffer parameters of the kernels.py / dft_kernel.py entry points")
+    chk.floor("cache-mutate", 4, "readers of the generators' / plans' saved intermediates")
     chk.floor("cache-alias", 8, "8 keyed stores + the per-object scratch buffers")
     chk.floor("reinit", 8, "3 classes x (inputs compared, recorded, sibling preparation)")
     chk.floor("reinit-reset", 3, "2 kept generators x 2 hooks + 2 wrapper hooks")
@@ -1766,6 +1883,22 @@ def mutants(tree):
                "        cond = self.sdmxgen is None\n        cond = cond or self.mol != mol\n",
                "        old_mol, self.mol = self.mol, mol\n        cond = self.sdmxgen is None\n        cond = cond or self.mol != mol\n",
                expect="reinit"),
+        # --- round 9 -----------------------------------------------------------------------------------
+        Mutant("saved l=0 projections scaled through a plain alias", PLANS,
+               "        tmp = fac * vxc_ig[:n0, None] * l0tmp  # fqg\n",
+               "        tmp = l0tmp\n        tmp *= fac * vxc_ig[:n0, None]  # fqg\n", expect="hidden-write"),
+        Mutant("potential pass rescales the cached projections (sdmx generator)", SDMX,
+               "        for idm in range(n_out):\n            tmp2 = self.plan.get_vxc(",
+               "        for idm in range(n_out):\n            alpha_terms[idm] *= 1.0\n            tmp2 = self.plan.get_vxc(",
+               expect="cache-mutate"),
+        Mutant("potential pass updates the per-spin cache in place (nldf generator)", GEN,
+               '        vfunc_g = np.einsum("gq,gq->g", cache["p_gq"], vtheta_gq)\n',
+               '        pw = cache["p_gq"].T\n        pw[:] *= 1.0\n        vfunc_g = np.einsum("gq,gq->g", cache["p_gq"], vtheta_gq)\n',
+               expect="cache-mutate"),
+        Mutant("balanced chunks, divisor guarded by max", XE,
+               "        for i0 in range(0, N, dn):\n            i1 = min(N, i0 + dn)\n",
+               "        nb = (N + dn - 1) // dn\n        w = N // max(1, nb)\n        for b in range(nb):\n            i0 = b * w\n            i1 = (b + 1) * w\n",
+               expect="chunk-loop"),
         Mutant("chunk result overwritten", XE, "res[i0:i1] += k.dot(self.alpha)", "res[i0:i1] = k.dot(self.alpha)",
                expect="chunk-loop"),
         Mutant("chunk loop skips the first chunk", XE, "for i0 in range(0, N, dn):", "for i0 in range(dn, N, dn):",
